@@ -359,6 +359,19 @@ func newSim(cfg W3Cfg, out *Outcome, wantLog bool) *Sim {
 			}
 		})
 	}
+	raft.VerifOnStart = func(nodeId uint64, group uuid.UUID, index uint64) {
+		// a (re)started group instance applies from the entry after its own snapshot
+		s.post(func() {
+			if s.onApply != nil {
+				n := s.byId[nodeId]
+				inc := 0
+				if n != nil {
+					inc = n.inc
+				}
+				s.onApply(applyRec{node: nodeId, inc: inc, group: group, index: index, typ: -1})
+			}
+		})
+	}
 	storage.VerifPauseHook = func(nodeId uint64, partition uuid.UUID, point string) {
 		if s.pauseHook != nil {
 			s.pauseHook(nodeId, partition, point)
@@ -443,6 +456,7 @@ func (s *Sim) close() {
 	wal.VerifIOHook = nil
 	raft.VerifOnApply = nil
 	raft.VerifOnSnapshotApplied = nil
+	raft.VerifOnStart = nil
 	storage.VerifPauseHook = nil
 	fatalSink = nil
 	simrt.YieldFn = nil
